@@ -8,9 +8,13 @@
     path of set / put / set_temp_file / put_temp_file (plain or sharded, retry
     included): the source of every publishing rename / link is a path that an
     accepted chmod made read-only - the mode it set has no write bit - and that
-    no later chmod made writable again ([C19_read_only_before_visible]). *)
+    no later chmod made writable again ([C19_read_only_before_visible]); and, for
+    lookups through stacks of ANY depth, with or without a consistency checker:
+    the descriptor returned has not been read from since it was opened or since
+    the library rewound it with an accepted seek to 0
+    ([C19_lookups_serve_from_the_start]). *)
 From Coq Require Import List NArith ZArith String Bool.
-From Kismet Require Import FS.Fs FS.Prog Spec.Wp Ops.Ops Spec.StackSpec Proofs.StackSweep Proofs.ReadOnlyFirst.
+From Kismet Require Import FS.Fs FS.Prog Spec.Wp Ops.Ops Spec.StackSpec Proofs.StackSweep Proofs.ReadOnlyFirst Proofs.OffsetZero Ops.Client.
 Import ListNotations.
 
 Theorem C19_handles_matrix : forall c op, In c configs -> In op ops -> handle_ok c op = true.
@@ -57,3 +61,25 @@ Theorem C19_monitor_meaning : forall p q m,
 Proof.
   intros p q m. repeat split. cbn [q_step]. rewrite masked_mode_read_only. reflexivity.
 Qed.
+
+(** From the start, any depth, all responses, with or without a checker (which is
+    only assumed to read nothing but the two descriptors it is given). *)
+Theorem C19_lookups_serve_from_the_start : forall chk cfg k,
+  match chk with
+  | Some ck => forall a b s, wp oz_step (ck a b) (fun _ s' => forall x, x <> a -> x <> b -> clean x s -> clean x s') s
+  | None => True end ->
+  s_checker cfg = chk -> forall s,
+  wp oz_step (cache_get cfg k) (fun r s' => match r with Ok (Some fd) => clean fd s' | _ => True end) s.
+Proof. intros chk cfg k H. exact (lookup_serves_from_the_start chk H cfg k). Qed.
+
+Theorem C19_model_checkers_read_their_arguments : forall a b fail s,
+  wp oz_step (chk_byteeq a b) (fun _ s' => forall x, x <> a -> x <> b -> clean x s -> clean x s') s /\
+  wp oz_step (chk_count fail a b) (fun _ s' => forall x, x <> a -> x <> b -> clean x s -> clean x s') s.
+Proof. exact model_checkers_read_their_arguments. Qed.
+
+Theorem C19_offset_monitor_meaning : forall fd p a n s,
+  oz_step s (EvCall (CRead fd n) (RData [])) = Some (fd :: s) /\
+  clean fd (match oz_step (fd :: s) (EvCall (CSeek fd 0) ROk) with Some s' => s' | None => [fd] end) /\
+  clean fd (match oz_step (fd :: s) (EvCall (COpen p a) (RFd fd)) with Some s' => s' | None => [fd] end) /\
+  oz_step (fd :: s) (EvCall (CSeek fd 0) (RErr EIO)) = Some (fd :: s).
+Proof. intros. cbn [oz_step N.eqb]. repeat split; apply clean_remove. Qed.
